@@ -70,6 +70,7 @@ type Source struct {
 	Next          func(max int) int // for "short": how many bytes to deliver
 	FailAt        int               // byte offset at which reads fail (-1 none)
 	Forever       bool
+	WithData      bool // deliver the error together with the last bytes before FailAt
 	Hit           int
 	Calls         int
 	CallsAfterEnd int
@@ -118,6 +119,10 @@ func (s *Source) Read(p []byte) (int, error) {
 	}
 	copy(p, s.Data[s.Pos:s.Pos+n])
 	s.Pos += n
+	if s.WithData && s.FailAt >= 0 && s.Pos == s.FailAt && n > 0 && (s.Hit == 0 || s.Forever) {
+		s.Hit++
+		return n, ErrInjected
+	}
 	if s.Frag == "eofwith" && s.Pos == len(s.Data) {
 		return n, io.EOF
 	}
